@@ -240,6 +240,17 @@ def verify(spec: FuncSpec, cfg: dict, tier="quick", exclude=()) -> RunResult:
             ctx.case = c
             spec.install(c)
             args, kwargs = spec.setup(c)
+
+            def _exc_check(e, c=c, args=None, kwargs=None):
+                allowed = spec.raises(c, c._args, c._kwargs, e)
+                oname = f"exceptions-as-declared[{e.tname}]"
+                if isinstance(allowed, tuple):
+                    oname, allowed = allowed
+                ctx.oblige(oname, False if allowed is None else allowed, kind="raises", where=e.where,
+                           detail=f"{e.tname}{e.eargs!r}"[:200], assume_after=False)
+
+            c._args, c._kwargs = args, kwargs
+            ctx.exc_checker = _exc_check
             for expr in exclude:
                 # known-finding witness classes: look only for failures *outside* the recorded class
                 try:
@@ -270,9 +281,8 @@ def verify(spec: FuncSpec, cfg: dict, tier="quick", exclude=()) -> RunResult:
                 e = outcome[1]
                 key = f"raise:{e.tname}"
                 res.outcomes[key] = res.outcomes.get(key, 0) + 1
-                allowed = spec.raises(c, args, kwargs, e)
-                ctx.oblige(f"exceptions-as-declared[{e.tname}]", False if allowed is None else allowed,
-                           kind="raises", where=e.where, detail=f"{e.tname}{e.eargs!r}"[:200], assume_after=False)
+                if not getattr(e, "checked", False):
+                    _exc_check(e)
             res.paths += 1
         except PathInfeasible:
             res.infeasible += 1
